@@ -80,3 +80,5 @@ SPEC = {'id': 'C10',
 
 SPEC['rule'] += (' Added after the seeded-change rounds: ' +
     'Every case is evaluated twice, in different orders and interleaved with other documents (vh.Independent: encoder and decoder results depend on the input alone, no state survives between calls).')
+
+SPEC['thorough_passes'] = 5  # the thorough tier runs the whole harness under this many consecutive seeds
